@@ -156,6 +156,91 @@ func (x *Exec) verifyBody(fn *ssa.Function, c *Contract, res *FuncResult) {
 	if c.HasAssigns || c.Pure {
 		x.frameObligations(fr, c, out, penv)
 	}
+	x.inventoryObligations(fn, c)
+}
+
+// inventoryObligations: "Type.field is referenced only in the listed functions" —
+// a syntactic obligation over the SSA of the whole package (writer inventory,
+// DESIGN.md C15/C30). A new reference elsewhere fails it.
+func (x *Exec) inventoryObligations(fn *ssa.Function, c *Contract) {
+	for _, inv := range c.Inventory {
+		parts := strings.SplitN(inv.Field, ".", 2)
+		if len(parts) != 2 {
+			panic(contractError("bad inventory field " + inv.Field))
+		}
+		allowed := map[string]bool{}
+		for _, w := range inv.Writers {
+			allowed[w] = true
+		}
+		var offenders []string
+		found := false
+		var visit func(f *ssa.Function)
+		visit = func(f *ssa.Function) {
+			for _, b := range f.Blocks {
+				for _, in := range b.Instrs {
+					var st *types.Struct
+					var named *types.Named
+					var idx int
+					switch i := in.(type) {
+					case *ssa.FieldAddr:
+						if pt, ok := i.X.Type().Underlying().(*types.Pointer); ok {
+							named, _ = pt.Elem().(*types.Named)
+							st, _ = pt.Elem().Underlying().(*types.Struct)
+							idx = i.Field
+						}
+					case *ssa.Field:
+						named, _ = i.X.Type().(*types.Named)
+						st, _ = i.X.Type().Underlying().(*types.Struct)
+						idx = i.Field
+					}
+					if named == nil || st == nil || named.Obj().Name() != parts[0] || st.Field(idx).Name() != parts[1] {
+						continue
+					}
+					found = true
+					root := f
+					for root.Parent() != nil {
+						root = root.Parent()
+					}
+					if !allowed[funcKey(f)] && !allowed[funcKey(root)] {
+						offenders = append(offenders, funcKey(f)+" ("+x.prog.pos(in.Pos())+")")
+					}
+				}
+			}
+			for _, af := range f.AnonFuncs {
+				visit(af)
+			}
+		}
+		sp := fn.Pkg
+		for _, m := range sp.Members {
+			switch mm := m.(type) {
+			case *ssa.Function:
+				visit(mm)
+			case *ssa.Type:
+				for _, t := range []types.Type{mm.Type(), types.NewPointer(mm.Type())} {
+					ms := sp.Prog.MethodSets.MethodSet(t)
+					for i := 0; i < ms.Len(); i++ {
+						if mf := sp.Prog.MethodValue(ms.At(i)); mf != nil && mf.Pkg == sp && mf.Synthetic == "" {
+							visit(mf)
+						}
+					}
+				}
+			}
+		}
+		name := fmt.Sprintf("%s#inventory.%s", funcKey(fn), inv.Field)
+		if inv.Tag != "" {
+			name = fmt.Sprintf("%s#%s.inventory.%s", funcKey(fn), inv.Tag, inv.Field)
+		}
+		formula := "true"
+		src := fmt.Sprintf("%s is referenced only in: %s", inv.Field, strings.Join(inv.Writers, ", "))
+		if len(offenders) > 0 || !found {
+			formula = "false"
+			src += "; offending references: " + strings.Join(offenders, "; ")
+			if !found {
+				src += " (field not found: contract-shape drift)"
+			}
+		}
+		x.addObl(&Obligation{Name: name, Kind: "inventory", Tag: inv.Tag, Func: funcKey(fn), Pos: fmt.Sprintf("%s:%d", shortPath(c.File), inv.Line), Guard: "true", Formula: formula, Src: src})
+	}
 }
 
 func shortPath(p string) string {
